@@ -237,3 +237,13 @@ Definition C09_holdsb (P : params) (tr : list event) (blocked : nat) (lives : li
     else 0%N
   | v => v
   end.
+
+(* ------------------------------------------------------------------ C18: goroutine census of the composite
+   The goroutines the composite creates on its own behalf: one per child per boot (alive until
+   startRunnable has returned) and one per child per stopAllRunnables round (alive until the
+   child's Stop() has returned).  API callers' goroutines are the environment's. *)
+Definition kid_alive (k : kid) : bool := match k_pc k with KDone => false | _ => true end.
+Definition worker_alive (w : worker) : bool := match w_pc w with WDone => false | _ => true end.
+Definition kid_census (s : state) : nat := length (filter kid_alive (kids s)).
+Definition worker_census (s : state) : nat := length (filter worker_alive (workers s)).
+Definition census (s : state) : nat := kid_census s + worker_census s.
